@@ -72,21 +72,6 @@ Proof.
   rewrite Z.mod_small by lia. reflexivity.
 Qed.
 
-Lemma ztake_c_app {A} (a b : list A) n : zlen a = n -> ztake_c n (a ++ b) = a.
-Proof.
-  intros <-. unfold ztake_c. destruct (zlen (a ++ b) <=? zlen a) eqn:E.
-  - rewrite zlen_app in E. assert (zlen b = 0) by (pose proof (zlen_nonneg b); lia).
-    destruct b; [apply app_nil_r | rewrite zlen_cons in H; pose proof (zlen_nonneg b); lia].
-  - apply ztake_app_exact.
-Qed.
-Lemma zdrop_c_app {A} (a b : list A) n : zlen a = n -> zdrop_c n (a ++ b) = b.
-Proof.
-  intros <-. unfold zdrop_c. destruct (zlen (a ++ b) <=? zlen a) eqn:E.
-  - rewrite zlen_app in E. assert (zlen b = 0) by (pose proof (zlen_nonneg b); lia).
-    destruct b; [reflexivity | rewrite zlen_cons in H; pose proof (zlen_nonneg b); lia].
-  - apply zdrop_app_exact.
-Qed.
-
 Definition s16 (v : Z) : Z := to_signed 65536 v.
 
 Lemma sv8_sh_payload_zlen crc samples silence rate_idx max_bands channels ms block_pwr :
